@@ -69,8 +69,9 @@ type builder struct {
 	p           *Params
 	nextID      int
 	cfgs        []scen.ConfigSpec
-	solo        map[string]bool // custom standalone file names already given to a test
-	shuffleNext int             // -test.shuffle seed for the lifetime that runs the edited program
+	solo        map[string]bool  // custom standalone file names already given to a test
+	shuffleNext int              // -test.shuffle seed for the lifetime that runs the edited program
+	prev        []*scen.TestNode // the program the current one was edited from (see hotCalls)
 }
 
 func pickW(r *scen.Rand, w map[string]int) string {
@@ -718,6 +719,9 @@ func (b *builder) faults(prog []*scen.TestNode, kill bool) []scen.Fault {
 	if len(ids) == 0 {
 		return nil
 	}
+	// calls that are likely to write in this lifetime (their value changed, or they are
+	// new): a fault aimed at a call that only reads never fires
+	hot := b.hotCalls(prog)
 	kinds := []struct {
 		kind string
 		errs []string
@@ -738,12 +742,28 @@ func (b *builder) faults(prog []*scen.TestNode, kill bool) []scen.Fault {
 		{"cleanwrite", []string{"ENOSPC", "EIO"}},
 		{"cleantruncate", []string{"EIO"}},
 		{"cleanread", []string{"EIO"}},
+		{"cleanreadfile", []string{"EIO", "EACCES"}},
+		{"rofile", []string{"EACCES"}},
+		{"aofile", []string{"EPERM"}},
 	}
 	n := 1 + r.Intn(3)
 	var out []scen.Fault
 	for i := 0; i < n; i++ {
 		k := kinds[r.Intn(len(kinds))]
 		f := scen.Fault{Kind: k.kind, CallID: ids[r.Intn(len(ids))], Nth: 1 + r.Intn(2), Err: k.errs[r.Intn(len(k.errs))]}
+		if len(hot) > 0 && r.Bool(0.5) {
+			// the write path of a call that will take it
+			wk := []string{"write", "writefile", "openfile", "truncate", "mkdirall", "close"}[r.Intn(6)]
+			for _, kk := range kinds {
+				if kk.kind == wk {
+					k = kk
+				}
+			}
+			f = scen.Fault{Kind: k.kind, CallID: hot[r.Intn(len(hot))], Nth: 1, Err: k.errs[r.Intn(len(k.errs))]}
+			if k.kind == "openfile" && r.Bool(0.5) {
+				f.Nth = 2 // (the first open of a call may be its lookup)
+			}
+		}
 		if k.kind == "cleanopen" {
 			// Clean opening a used snapshot file
 			f.Kind = "openfile"
@@ -751,13 +771,20 @@ func (b *builder) faults(prog []*scen.TestNode, kill bool) []scen.Fault {
 			f.PathSuffix = []string{"zz_world_a_test.snap", "zz_world_b_test.snap", "zz_world_c.snapshot_test.snap", "shared.snap", "data.snap"}[r.Intn(5)]
 			f.Nth = 1
 		}
-		if k.kind == "cleanwrite" || k.kind == "cleantruncate" || k.kind == "cleanread" {
+		if k.kind == "cleanwrite" || k.kind == "cleantruncate" || k.kind == "cleanread" || k.kind == "cleanreadfile" {
 			// Clean rewriting a used snapshot file: the n-th entry it writes back fails (or
 			// the process dies there: the file is left truncated or half rewritten)
 			f.Kind = strings.TrimPrefix(k.kind, "clean")
 			f.CallID = -2
 			f.PathSuffix = []string{"zz_world_a_test.snap", "zz_world_b_test.snap", "zz_world_c.snapshot_test.snap", "shared.snap", "data.snap"}[r.Intn(5)]
 			f.Nth = 1 + r.Intn(3)
+		}
+		if k.kind == "rofile" || k.kind == "aofile" {
+			// a snapshot file that is read-only for the whole lifetime (a read-only checkout):
+			// whoever asks for write access to it is refused, readers are not
+			f.CallID = -1
+			f.PathSuffix = []string{"zz_world_a_test.snap", "zz_world_b_test.snap", "zz_world_c.snapshot_test.snap", "shared.snap", "data.snap"}[r.Intn(5)]
+			f.Nth = 0
 		}
 		if k.kind == "readdir" || k.kind == "remove" {
 			// operations of Clean: addressed by directory, because Clean visits directories
@@ -777,8 +804,37 @@ func (b *builder) faults(prog []*scen.TestNode, kill bool) []scen.Fault {
 			f = scen.Fault{Kind: k.kind, CallID: f.CallID, Nth: 1, Kill: true}
 		}
 		out = append(out, f)
+		if (k.kind == "write" || k.kind == "writefile") && !f.Kill {
+			// "the data write of this call fails", whichever way the implementation writes
+			// (one WriteFile, or OpenFile followed by Write)
+			g := f
+			if k.kind == "write" {
+				g.Kind = "writefile"
+			} else {
+				g.Kind = "write"
+			}
+			out = append(out, g)
+		}
 	}
 	return out
+}
+
+// hotCalls: ids of the calls of prog whose values differ from the program this one was
+// edited from (b.prev), or that did not exist there.
+func (b *builder) hotCalls(prog []*scen.TestNode) []int {
+	old := map[int]string{}
+	walkCalls(b.prev, func(n *scen.TestNode, i int, c *scen.Call) {
+		j, _ := json.Marshal(c)
+		old[c.ID] = string(j)
+	})
+	var hot []int
+	walkCalls(prog, func(n *scen.TestNode, i int, c *scen.Call) {
+		j, _ := json.Marshal(c)
+		if o, ok := old[c.ID]; !ok || o != string(j) {
+			hot = append(hot, c.ID)
+		}
+	})
+	return hot
 }
 
 // World draws one world.
@@ -837,6 +893,7 @@ func World(seed uint64, index int, p *Params) *check.World {
 		return w
 	}
 	prog2 := b.edit(prog)
+	b.prev = prog
 	l2 := &scen.Lifetime{Mode: "runner", Count: pickInt(r, p.Counts), Env: pickEnv(r, p.Envs), Configs: b.cfgs, Tests: prog2, Note: "L2", Shuffle: b.shuffleNext}
 	if r.Bool(p.TasksP) {
 		l2.Mode, l2.Count, l2.Sched = "tasks", 1, b.sched()
